@@ -4,6 +4,7 @@ from .core import *
 from . import poly
 
 SRC = "src/sparkx/MultiParticlePtCorrelations.py"
+OUTPUTS = ["GenPtCorr"]
 
 
 def generate():
